@@ -61,7 +61,7 @@ Definition txt_parseBodyV0_0 : string :=
 Lemma src_parseBodyV0_0_tie : Gen_C05.src_parseBodyV0_0 = txt_parseBodyV0_0.
 Proof. reflexivity. Qed.
 Definition txt_parseBodyV0_1 : string :=
-  "( header : PoseHeaderModel , buffer : Buffer , version : number ) const _points = header . components . map ( c => c . points . length ) . reduce ( ( a , b ) => a + b , 0 ) ; const _dims = Math . max ( ... header . components . map ( c => c . format . length ) ) - 1 ; let infoParser = newParser ( ) . seek ( header . headerLength ) ; let infoSize = 0 ; if ( version === 0.1 ) { infoParser = infoParser . uint16 ( ""fps"" ) . uint16 ( ""_frames"" ) ; infoSize = 6 ; } else if ( version === 0.2 ) { infoParser = infoParser . floatle ( ""fps"" ) . uint32 ( ""_frames"" ) ; infoSize = 10 ; } else { throw new Error ( `Invalid version ${version}` ) ; } infoParser = infoParser . uint16 ( ""_people"" ) ; const info = infoParser . parse ( buffer ) ; const parseFloat32Array = ( length : number , offset : number ) => { const dataView = new DataView ( buffer . buffer , buffer . byteOffset , buffer . length ) ; let currentOffset = offset ; const vars = { data : new Float32Array ( length ) , offset : 0 } ; for ( let i = 0 ; i < vars . data . length ; i ++ ) { let $tmp1 = dataView . getFloat32 ( currentOffset , true ) ; currentOffset += 4 ; vars . data [ i ] = $tmp1 } vars . offset = currentOffset ; return vars ; } ; const data = parseFloat32Array ( info . _frames * info . _people * _points * _dims , header . headerLength + infoSize ) ; const confidence = parseFloat32Array ( info . _frames * info . _people * _points , data . offset ) ; function frameRepresentation ( i : number ) { const people : any [ ] = new Array ( info . _people ) ; for ( let j = 0 ; j < info . _people ; j ++ ) { const person : any = { } ; people [ j ] = person ; let k = 0 ; header . components . forEach ( component => { person [ component . name ] = [ ] ; for ( let l = 0 ; l < component . points . length ; l ++ ) { const offset = i * ( info . _people * _points ) + j * _points ; const place = offset + k + l ; const point : any = { ""C"" : confidence . data [ place ] } ; [ ... component . format ] . forEach ( ( dim , dimIndex ) => { if ( dim !== ""C"" ) { point [ dim ] = data . data [ place * _dims + dimIndex ] ; } } ) ; person [ component . name ] . push ( point ) } k += component . points . length ; } ) ; } return { people } } const frames = new Proxy ( { } , { get : function ( target : any , name : any ) { if ( name === ""length"" ) { return info . _frames } return frameRepresentation ( name ) ; } } ) as PoseBodyFrameModel [ ] ; return { ... info , frames } as PoseBodyModel ;".
+  "( header : PoseHeaderModel , buffer : Buffer , version : number ) const _points = header . components . map ( c => c . points . length ) . reduce ( ( a , b ) => a + b , 0 ) ; const _dims = Math . max ( ... header . components . map ( c => c . format . length ) ) - 1 ; let infoParser = newParser ( ) . seek ( header . headerLength ) ; let infoSize = 0 ; if ( version === 0.1 ) { infoParser = infoParser . uint16 ( ""fps"" ) . uint16 ( ""_frames"" ) ; infoSize = 6 ; } else if ( version === 0.2 ) { infoParser = infoParser . floatle ( ""fps"" ) . uint32 ( ""_frames"" ) ; infoSize = 10 ; } else { throw new Error ( `Invalid version ${version}` ) ; } infoParser = infoParser . uint16 ( ""_people"" ) ; const info = infoParser . parse ( buffer ) ; const parseFloat32Array = ( length : number , offset : number ) => { const dataView = new DataView ( buffer . buffer , buffer . byteOffset , buffer . length ) ; let currentOffset = offset ; const vars = { data : new Float32Array ( length ) , offset : 0 } ; for ( let i = 0 ; i < vars . data . length ; i ++ ) { let $tmp1 = dataView . getFloat32 ( currentOffset , true ) ; currentOffset += 4 ; vars . data [ i ] = $tmp1 } vars . offset = currentOffset ; return vars ; } ; const data = parseFloat32Array ( info . _frames * info . _people * _points * _dims , header . headerLength + infoSize ) ; const confidence = parseFloat32Array ( info . _frames * info . _people * _points , data . offset ) ; function frameRepresentation ( i : number ) { const people : any [ ] = new Array ( info . _people ) ; for ( let j = 0 ; j < info . _people ; j ++ ) { const person : any = { } ; people [ j ] = person ; let k = 0 ; header . components . forEach ( component => { person [ component . name ] = [ ] ; for ( let l = 0 ; l < component . points . length ; l ++ ) { const offset = i * ( info . _people * _points ) + j * _points ; const place = offset + k + l ; const point : any = { ""C"" : confidence . data [ place ] } ; let dimIndex = 0 ; [ ... component . format ] . forEach ( dim => { if ( dim !== ""C"" ) { point [ dim ] = data . data [ place * _dims + dimIndex ] ; dimIndex ++ ; } } ) ; person [ component . name ] . push ( point ) } k += component . points . length ; } ) ; } return { people } } const frames = new Proxy ( { } , { get : function ( target : any , name : any ) { if ( name === ""length"" ) { return info . _frames } return frameRepresentation ( name ) ; } } ) as PoseBodyFrameModel [ ] ; return { ... info , frames } as PoseBodyModel ;".
 Lemma src_parseBodyV0_1_tie : Gen_C05.src_parseBodyV0_1 = txt_parseBodyV0_1.
 Proof. reflexivity. Qed.
 Definition txt_parsePose : string :=
